@@ -21,7 +21,8 @@ RULE = ('matrices from random sparse count matrices with 2..8 states (irreducibl
         'exact power), skipped when an exact entry lies within 1e-12 of a threshold; layer (b): model '
         'vs graph specification (strong connectivity + period, class structure for the mask) on '
         'threshold-free cases. Non-trivial: >= 3 states and reducible / periodic / extremal support, '
-        'or ergodic with a zero entry.')
+        'or ergodic with a zero entry.'
+        ' Added classes: one ndarray refilled in place between calls, Fortran/transposed/strided layouts (same verdicts), non-stochastic matrices whose row-sum errors cancel (transposes, symmetrised, mass moved between rows), nearly symmetric and rare-state matrices.')
 TRUSTED = ['np.linalg.matrix_power in floating point (decisions compared only away from the thresholds)',
            'the boolean closedness test class_closed used in mask_largest_closed_thm is an executable '
            'definition (edges leaving the class), not related to a Prop-level notion by a theorem']
